@@ -23,17 +23,29 @@ ANCHORS = {
         "neuroml/loaders.py": ["NeuroMLLoader.*", "read_neuroml2_file", "_read_neuroml2"],
     },
     "C02": {
-        GSS: ["GeneratedsSuperSuper.validate"],
+        GSS: ["GeneratedsSuperSuper.validate", "GeneratedsSuperSuper._GeneratedsSuperSuper__validate_with_ancestors"],
         NML: ["GeneratedsSuper.gds_validate_*", "GeneratedsSuper.gds_check_cardinality_", "*.validate_Nml*",
               "*.validate_ZeroToOne", "*.validate_NonNegativeInteger", "*.validate_PositiveInteger",
-              "Morphology.validate_", "Cell.validate_", "NeuroMLDocument.validate_", "Segment.validate_"],
+              "Morphology.validate_", "Cell.validate_", "NeuroMLDocument.validate_", "Segment.validate_",
+              # second pass: the writer's escaping, the scalar formats, the export methods of the types the directed
+              # cases use, every remaining simple-type validator
+              "quote_attrib", "quote_xml", "quote_xml_aux", "GeneratedsSuper.gds_format_string", "GeneratedsSuper.gds_format_integer",
+              "GeneratedsSuper.gds_format_float", "GeneratedsSuper.gds_format_double", "GeneratedsSuper.gds_format_boolean",
+              "Point3DWithDiam.export", "Segment.export", "Segment._exportChildren", "Morphology._exportChildren",
+              "Property.export", "Property._exportAttributes", "*.validate_MetaId", "*.validate_NeuroLexId",
+              "*.validate_ZeroOrOne", "*.validate_DoubleGreaterThanZero", "*.validate_TrueOrFalse", "*.validate_Notes",
+              "*.validate_*Types", "*.validate_Metric", "*.validate_allowedSpaces"],
         "neuroml/writers.py": ["NeuroMLWriter.write"],
     },
     "C03": {
-        GSS: ["GeneratedsSuperSuper.validate"],
+        GSS: ["GeneratedsSuperSuper.validate", "GeneratedsSuperSuper._GeneratedsSuperSuper__validate_with_ancestors"],
         NML: ["GeneratedsSuper.gds_validate_*", "GeneratedsSuper.gds_check_cardinality_", "Morphology.validate_",
               "Cell.validate_", "NeuroMLDocument.validate_", "Segment.validate_", "Network.validate_",
-              "Population.validate_"],
+              "Population.validate_",
+              # second pass: every simple-type validator (214 methods)
+              "*.validate_Nml*", "*.validate_ZeroToOne", "*.validate_NonNegativeInteger", "*.validate_PositiveInteger",
+              "*.validate_MetaId", "*.validate_NeuroLexId", "*.validate_ZeroOrOne", "*.validate_DoubleGreaterThanZero",
+              "*.validate_TrueOrFalse", "*.validate_Notes", "*.validate_*Types", "*.validate_Metric", "*.validate_allowedSpaces"],
         "neuroml/utils.py": ["validate_neuroml2", "is_valid_neuroml2"],
     },
     "C04": {
